@@ -6,25 +6,25 @@ namespace Pm
 
 /-! ## array accessors -/
 
-theorem get_set (st : Store) (i j : Nat) (v : HostRange) :
+theorem Store.get_set (st : Store) (i j : Nat) (v : HostRange) :
     (st.set! i v)[j]! = if i = j ∧ i < st.size then v else st[j]! := by
   grind
 
-theorem size_set (st : Store) (i : Nat) (v : HostRange) : (st.set! i v).size = st.size := by
+theorem Store.size_set (st : Store) (i : Nat) (v : HostRange) : (st.set! i v).size = st.size := by
   grind
 
-theorem get_push (st : Store) (v : HostRange) (j : Nat) :
+theorem Store.get_push (st : Store) (v : HostRange) (j : Nat) :
     (st.push v)[j]! = if j < st.size then st[j]! else if j = st.size then v else default := by
   grind
 
-theorem size_push (st : Store) (v : HostRange) : (st.push v).size = st.size + 1 := by
+theorem Store.size_push (st : Store) (v : HostRange) : (st.push v).size = st.size + 1 := by
   grind
 
-theorem perm_cons_eraseIdx {α} : ∀ (l : List α) (i : Nat) (h : i < l.length), l.Perm (l[i] :: l.eraseIdx i)
+theorem ids_perm_cons_eraseIdx {α} : ∀ (l : List α) (i : Nat) (h : i < l.length), l.Perm (l[i] :: l.eraseIdx i)
   | a :: l, 0, _ => by simp
   | a :: l, i + 1, h => by
     simp only [List.getElem_cons_succ, List.eraseIdx_cons_succ]
-    exact ((perm_cons_eraseIdx l i (by simpa using h)).cons a).trans (List.Perm.swap ..)
+    exact ((ids_perm_cons_eraseIdx l i (by simpa using h)).cons a).trans (List.Perm.swap ..)
 
 /-- two ranges that differ at most in a width that prints every element alike -/
 def REq (r r' : HostRange) : Prop :=
@@ -80,7 +80,7 @@ theorem combineM_SEq (st : Store) (i j : Nat) : SEq st (combineM st i j).2 := by
   · cases h : widthEquiv (st[i]!).lo (st[i]!).width (st[j]!).lo (st[j]!).width with
     | none =>
       refine ⟨by simp, fun k => ?_⟩
-      simp only [get_set, size_set]
+      simp only [Store.get_set, Store.size_set]
       split
       · rename_i hh; rw [← hh.1]; exact REq.refl _
       · split
@@ -90,7 +90,7 @@ theorem combineM_SEq (st : Store) (i j : Nat) : SEq st (combineM st i j).2 := by
       obtain ⟨wa, wb⟩ := p
       obtain ⟨_, hA, hB⟩ := widthEquiv_sound h
       refine ⟨by simp, fun k => ?_⟩
-      simp only [get_set, size_set]
+      simp only [Store.get_set, Store.size_set]
       split
       · rename_i hh; rw [← hh.1]; exact REq_width _ _ hB
       · split
@@ -107,7 +107,7 @@ theorem combineM_false (st : Store) (i j : Nat) (h : (combineM st i j).1 = false
     simp only [hne, if_false] at h
     cases hw : widthEquiv (st[i]!).lo (st[i]!).width (st[j]!).lo (st[j]!).width with
     | none =>
-      simp only [get_set, size_set]
+      simp only [Store.get_set, Store.size_set]
       split
       · rename_i hh; rw [← hh.1]
       · split
@@ -129,7 +129,7 @@ theorem combineM_true (st : Store) (i j : Nat) (h : (combineM st i j).1 = true) 
     | some p =>
       obtain ⟨wa, wb⟩ := p
       obtain ⟨hE, _, _⟩ := widthEquiv_sound hw
-      simp only [get_set, size_set]
+      simp only [Store.get_set, Store.size_set]
       simp [hi, hj, hE, Ne.symm hij]
 
 theorem cmpM_SEq (st : Store) (i j : Nat) : SEq st (cmpM st i j).2 := by
@@ -259,7 +259,7 @@ theorem adj_ids {ids : List Nat} {i : Nat} (hn : ids.Nodup) (h0 : i ≠ 0) (hi :
   exact ⟨List.getElem_mem _, List.getElem_mem _, nodup_getElem_ne hn (by omega) hi, rfl⟩
 
 /-- pull two distinct members to the front -/
-theorem extract2 {ids : List Nat} {p q : Nat} (hn : ids.Nodup) (hp : p ∈ ids) (hq : q ∈ ids) (hpq : p ≠ q) :
+theorem ids_extract2 {ids : List Nat} {p q : Nat} (hn : ids.Nodup) (hp : p ∈ ids) (hq : q ∈ ids) (hpq : p ≠ q) :
     ∃ rest, ids.Perm (p :: q :: rest) ∧ p ∉ rest ∧ q ∉ rest := by
   refine ⟨(ids.erase p).erase q, ?_, ?_, ?_⟩
   · have hq' : q ∈ ids.erase p := (hn.mem_erase_iff).mpr ⟨Ne.symm hpq, hq⟩
@@ -341,25 +341,25 @@ theorem collapse_merge {st : Store} {ids : List Nat} {i : Nat} (hinv : Inv st id
   have hexp := expand_merge st1[p]! st1[q]! ha1 hb1 (by rw [ap1, bp1]; exact hpfx) hw
     (by rw [ah1, bl1]; exact hadj) hawf hbwf
   -- list bookkeeping
-  obtain ⟨rest, hperm, hpr, hqr⟩ := extract2 hinv.1 hp hq hpq
+  obtain ⟨rest, hperm, hpr, hqr⟩ := ids_extract2 hinv.1 hp hq hpq
   have hq' : ids.Perm (q :: ids.eraseIdx i) := by
-    have := perm_cons_eraseIdx ids i hi
+    have := ids_perm_cons_eraseIdx ids i hi
     rw [← hqi] at this; exact this
   have hids' : (ids.eraseIdx i).Perm (p :: rest) :=
     List.Perm.cons_inv (hq'.symm.trans (hperm.trans (List.Perm.swap ..)))
   constructor
   · refine ⟨hinv.1.eraseIdx i, fun k hk => ?_, fun k hk => ?_⟩
-    · rw [size_set]; exact hinv1.2.1 k (List.mem_of_mem_eraseIdx hk)
-    · rw [get_set]
+    · rw [Store.size_set]; exact hinv1.2.1 k (List.mem_of_mem_eraseIdx hk)
+    · rw [Store.get_set]
       split
       · exact Or.inr ⟨ha1, by simp only; omega⟩
       · exact hinv1.2.2 k (List.mem_of_mem_eraseIdx hk)
   · refine (den_perm _ hids').trans ?_
     rw [← hden1]
     refine List.Perm.trans ?_ (den_perm _ hperm).symm
-    rw [den_cons, den_cons, den_cons, get_set]
+    rw [den_cons, den_cons, den_cons, Store.get_set]
     simp only [hinv1.2.1 p hp, and_self, if_true, hexp]
-    rw [den_congr (st := st1) (fun k hk => by rw [get_set]; simp; intro h; subst h; exact absurd hk hpr)]
+    rw [den_congr (st := st1) (fun k hk => by rw [Store.get_set]; simp; intro h; subst h; exact absurd hk hpr)]
     simp
 
 
@@ -414,4 +414,410 @@ theorem collapseF_spec {st : Store} {ids : List Nat} {st' : Store} {ids' : List 
   unfold collapseF at h
   exact collapseLoopF_spec _ _ _ _ _ _ hinv (by omega) h
 
+/-! ## `hostlist_coalesce` -/
+
+open List
+
+def insOneNums (a2hi b2lo x : Nat) : List Nat := (if x > a2hi then [x] else []) ++ (if x < b2lo then [x] else [])
+
+def insNums (a2hi b2lo newHi : Nat) : Nat → Nat → List Nat
+  | 0, _ => []
+  | f + 1, x => if x > newHi then [] else insOneNums a2hi b2lo x ++ insNums a2hi b2lo newHi f (x + 1)
+
+theorem count_insOneNums (a2hi b2lo x a : Nat) :
+    count a (insOneNums a2hi b2lo x) = if a = x then (if a > a2hi then 1 else 0) + (if a < b2lo then 1 else 0) else 0 := by
+  unfold insOneNums
+  rw [count_append]
+  by_cases h1 : x > a2hi <;> by_cases h2 : x < b2lo <;> by_cases h3 : a = x <;>
+    simp [h1, h2, h3, count_cons] <;> grind
+
+theorem count_insNums (a2hi b2lo newHi a : Nat) : ∀ (f x : Nat),
+    count a (insNums a2hi b2lo newHi f x) =
+      if x ≤ a ∧ a ≤ newHi ∧ a < x + f then (if a > a2hi then 1 else 0) + (if a < b2lo then 1 else 0) else 0
+  | 0, x => by simp [insNums]; omega
+  | f + 1, x => by
+    unfold insNums
+    split
+    · simp; omega
+    · rw [count_append, count_insOneNums, count_insNums a2hi b2lo newHi a f (x + 1)]
+      grind
+
+theorem split_nums_perm (alo ahi blo bhi : Nat) (h1 : alo ≤ blo) (h2 : blo < ahi) (h3 : blo ≤ bhi) :
+    (insNums blo (min bhi ahi) (min bhi ahi) (min bhi ahi + 2 - blo) blo ++
+      (range' alo (blo + 1 - alo) ++
+        range' (min bhi ahi) ((if min bhi ahi < ahi then ahi else bhi) + 1 - min bhi ahi))).Perm
+    (range' alo (ahi + 1 - alo) ++ range' blo (bhi + 1 - blo)) := by
+  rw [perm_iff_count]
+  intro a
+  simp only [count_append, count_range_1', count_insNums]
+  by_cases hm : bhi < ahi
+  · rw [Nat.min_eq_left (Nat.le_of_lt hm)]
+    simp only [hm, if_true]
+    grind
+  · rw [Nat.min_eq_right (by omega)]
+    simp only [Nat.lt_irrefl, if_false]
+    grind
+
+/-- the name a number stands for under a prefix and a width -/
+def nameOf (pfx : Name) (w x : Nat) : Name := pfx ++ fmtNum w x
+
+theorem numExpand_eq_range' (pfx : Name) (w lo hi : Nat) :
+    numExpand pfx w lo hi = (range' lo (hi + 1 - lo)).map (nameOf pfx w) := by
+  unfold numExpand
+  rw [range'_eq_map_range, map_map]
+  rfl
+
+theorem expand_eq_range' (r : HostRange) (h : r.single = false) :
+    r.expand = (range' r.lo (r.hi + 1 - r.lo)).map (nameOf r.pfx r.width) := by
+  rw [HostRange.expand_nonsingle r h, numExpand_eq_range']
+
+/-- `hostlist_insert_range` of a fresh copy adds exactly the names of the copy, wherever it is put -/
+theorem insertAt_spec {st : Store} {ids : List Nat} (j : Nat) {mk : HostRange} (hinv : Inv st ids) (hmk : mk.WFS) :
+    Inv (insertAt st ids j mk).2 (insertAt st ids j mk).1 ∧
+    (den (insertAt st ids j mk).2 (insertAt st ids j mk).1).Perm (mk.expand ++ den st ids) := by
+  unfold insertAt
+  simp only
+  have hperm : (st.size :: ids).Perm (ids.take j ++ [st.size] ++ ids.drop j) := by
+    have : (ids.take j ++ [st.size] ++ ids.drop j).Perm (st.size :: (ids.take j ++ ids.drop j)) := by
+      simp only [append_assoc, singleton_append]; exact perm_middle
+    rw [take_append_drop] at this
+    exact this.symm
+  have hfresh : st.size ∉ ids := fun h => Nat.lt_irrefl _ (hinv.2.1 _ h)
+  have hinv' : Inv (st.push mk) (st.size :: ids) := by
+    refine ⟨nodup_cons.mpr ⟨hfresh, hinv.1⟩, fun k hk => ?_, fun k hk => ?_⟩
+    · rw [Store.size_push]
+      rcases mem_cons.mp hk with rfl | hk
+      · omega
+      · have := hinv.2.1 k hk; omega
+    · rw [Store.get_push]
+      rcases mem_cons.mp hk with rfl | hk
+      · simpa using hmk
+      · simp only [hinv.2.1 k hk, if_true]; exact hinv.2.2 k hk
+  refine ⟨Inv_perm hperm hinv', (den_perm _ hperm.symm).trans ?_⟩
+  rw [den_cons, Store.get_push]
+  simp only [Nat.lt_irrefl, if_false, if_true]
+  rw [den_congr (st := st) (fun k hk => by rw [Store.get_push]; simp [hinv.2.1 k hk])]
+
+theorem mk_expand (pfx : Name) (w x : Nat) :
+    ({ pfx := pfx, lo := x, hi := x, width := w, single := false } : HostRange).expand = [nameOf pfx w x] := by
+  simp [HostRange.expand, nameOf]
+
+theorem mk_WFS (pfx : Name) (w x : Nat) :
+    ({ pfx := pfx, lo := x, hi := x, width := w, single := false } : HostRange).WFS :=
+  Or.inr ⟨rfl, Nat.le_refl _⟩
+
+theorem insOne_spec (pfx : Name) (w a2hi b2lo : Nat) {st : Store} {ids : List Nat} (x j : Nat) (hinv : Inv st ids) :
+    Inv (insOne pfx w a2hi b2lo st ids x j).2.1 (insOne pfx w a2hi b2lo st ids x j).1 ∧
+    (den (insOne pfx w a2hi b2lo st ids x j).2.1 (insOne pfx w a2hi b2lo st ids x j).1).Perm
+      ((insOneNums a2hi b2lo x).map (nameOf pfx w) ++ den st ids) := by
+  unfold insOne insOneNums
+  simp only
+  by_cases h1 : x > a2hi
+  · obtain ⟨i1, d1⟩ := insertAt_spec j hinv (mk_WFS pfx w x)
+    rw [mk_expand] at d1
+    by_cases h2 : x < b2lo
+    · simp only [h1, h2, if_true]
+      obtain ⟨i2, d2⟩ := insertAt_spec (j + 1) i1 (mk_WFS pfx w x)
+      rw [mk_expand] at d2
+      exact ⟨i2, d2.trans (by simpa using d1)⟩
+    · simp only [h1, h2, if_true, if_false]
+      exact ⟨i1, by simpa using d1⟩
+  · by_cases h2 : x < b2lo
+    · simp only [h1, h2, if_true, if_false]
+      obtain ⟨i2, d2⟩ := insertAt_spec j hinv (mk_WFS pfx w x)
+      rw [mk_expand] at d2
+      exact ⟨i2, by simpa using d2⟩
+    · simp only [h1, h2, if_false]
+      exact ⟨hinv, by simp⟩
+
+theorem insF_spec (pfx : Name) (w a2hi b2lo newHi : Nat) : ∀ (f : Nat) (st : Store) (ids : List Nat) (x j : Nat),
+    Inv st ids →
+    Inv (insF pfx w a2hi b2lo newHi f st ids x j).2 (insF pfx w a2hi b2lo newHi f st ids x j).1 ∧
+    (den (insF pfx w a2hi b2lo newHi f st ids x j).2 (insF pfx w a2hi b2lo newHi f st ids x j).1).Perm
+      ((insNums a2hi b2lo newHi f x).map (nameOf pfx w) ++ den st ids)
+  | 0, st, ids, x, j, hinv => by simp [insF, insNums, hinv]
+  | f + 1, st, ids, x, j, hinv => by
+    unfold insF insNums
+    split
+    · simp [hinv]
+    · obtain ⟨i1, d1⟩ := insOne_spec pfx w a2hi b2lo x j hinv
+      obtain ⟨i2, d2⟩ := insF_spec pfx w a2hi b2lo newHi f _ _ (x + 1) (insOne pfx w a2hi b2lo st ids x j).2.2 i1
+      refine ⟨i2, d2.trans ?_⟩
+      rw [map_append, append_assoc]
+      exact (d1.append_left _).trans (perm_append_comm_assoc _ _ _)
+
+/-- the `if (new) { … }` body of `hostlist_coalesce` keeps the multiset of names: the overlap `[newLo..newHi]` is
+    counted twice before and after -/
+theorem splitStep_spec {st : Store} {ids : List Nat} (i : Nat) {p q : Nat} (hinv : Inv st ids)
+    (hp : p ∈ ids) (hq : q ∈ ids) (hpq : p ≠ q)
+    (has : (st[p]!).single = false) (hbs : (st[q]!).single = false) (hpfx : (st[p]!).pfx = (st[q]!).pfx)
+    (hw : (st[p]!).width = (st[q]!).width) (hlo : (st[p]!).lo ≤ (st[q]!).lo) (hov : (st[q]!).lo < (st[p]!).hi) :
+    Inv (splitStep st ids i p q).2 (splitStep st ids i p q).1 ∧
+    (den (splitStep st ids i p q).2 (splitStep st ids i p q).1).Perm (den st ids) := by
+  have hbwf := WFS_nonsingle (hinv.2.2 q hq) hbs
+  have hps := hinv.2.1 p hp
+  have hqs := hinv.2.1 q hq
+  obtain ⟨rest, hperm, hpr, hqr⟩ := ids_extract2 hinv.1 hp hq hpq
+  have den0 : (den st ids).Perm ((st[p]!).expand ++ ((st[q]!).expand ++ den st rest)) := by
+    simpa [den_cons] using den_perm st hperm
+  unfold splitStep
+  simp only
+  generalize st[p]! = a at *
+  generalize st[q]! = b at *
+  generalize hb1 : (if min b.hi a.hi < a.hi then ({ b with hi := a.hi } : HostRange) else b) = b1
+  have hb1' : b1.pfx = b.pfx ∧ b1.width = b.width ∧ b1.single = b.single ∧ b1.lo = b.lo ∧
+      b1.hi = if min b.hi a.hi < a.hi then a.hi else b.hi := by
+    rw [← hb1]; split <;> simp
+  obtain ⟨e1, e2, e3, _, e5⟩ := hb1'
+  -- the two shrunk ranges
+  have inv3 : Inv ((st.set! p { a with hi := b.lo }).set! q { b1 with lo := min b.hi a.hi }) ids := by
+    refine ⟨hinv.1, fun k hk => by simpa [Store.size_set] using hinv.2.1 k hk, fun k hk => ?_⟩
+    rw [Store.get_set, Store.get_set]
+    split
+    · exact Or.inr ⟨by simp [e3, hbs], by simp only [e5]; split <;> omega⟩
+    · split
+      · exact Or.inr ⟨has, hlo⟩
+      · exact hinv.2.2 k hk
+  have den3 : (den ((st.set! p { a with hi := b.lo }).set! q { b1 with lo := min b.hi a.hi }) ids).Perm
+      (({ a with hi := b.lo } : HostRange).expand ++
+        (({ b1 with lo := min b.hi a.hi } : HostRange).expand ++ den st rest)) := by
+    refine (den_perm _ hperm).trans ?_
+    rw [den_cons, den_cons, Store.get_set, Store.get_set, Store.get_set, Store.get_set]
+    simp only [Store.size_set, hps, hqs, hpq, Ne.symm hpq, and_true, and_self, if_true, if_false]
+    rw [den_congr (st := st) (fun k hk => by
+      rw [Store.get_set, Store.get_set]
+      have h1 : ¬ (q = k ∧ q < (st.set! p { a with hi := b.lo }).size) := fun h => hqr (h.1 ▸ hk)
+      have h2 : ¬ (p = k ∧ p < st.size) := fun h => hpr (h.1 ▸ hk)
+      simp only [h1, h2, if_false])]
+  obtain ⟨i4, d4⟩ := insF_spec a.pfx a.width b.lo (min b.hi a.hi) (min b.hi a.hi) (min b.hi a.hi + 2 - b.lo) _ _ b.lo i inv3
+  refine ⟨i4, d4.trans (((den3.append_left _).trans ?_).trans den0.symm)⟩
+  rw [expand_eq_range' a has, expand_eq_range' b hbs, expand_eq_range' _ (by simpa using has),
+    expand_eq_range' _ (by simp [e3, hbs])]
+  simp only [e1, e2, e5, ← hpfx, ← hw]
+  rw [← append_assoc, ← append_assoc, ← append_assoc, ← map_append, ← map_append, ← map_append]
+  apply Perm.append_right
+  apply Perm.map
+  rw [append_assoc]
+  exact split_nums_perm a.lo a.hi b.lo b.hi hlo hov hbwf
+
+theorem prefixCmp_congr {a b a' b' : HostRange} (ha : REq a a') (hb : REq b b') : prefixCmp a' b' = prefixCmp a b := by
+  unfold prefixCmp
+  rw [ha.1, hb.1, ha.2.2.2.1, hb.2.2.2.1]
+
+theorem cmpM_eq (st : Store) (i j : Nat) : cmpM st i j =
+    if prefixCmp st[i]! st[j]! != 0 then (prefixCmp st[i]! st[j]!, st) else
+    (if (combineM st i j).1 then (((combineM st i j).2[i]!).lo : Int) - ((combineM st i j).2[j]!).lo
+      else (((combineM st i j).2[i]!).width : Int) - ((combineM st i j).2[j]!).width, (combineM st i j).2) := by
+  unfold cmpM
+  simp only
+
+/-- what `assert(hostrange_cmp(h1, h2) <= 0)` guarantees when `hostrange_intersect` goes on to build a range:
+    a failed width combination stays failed, a successful one compared the `lo` fields -/
+theorem cmpM_le {st : Store} {p q : Nat} (hc : ¬ (cmpM st p q).1 > 0)
+    (hpc : prefixCmp (cmpM st p q).2[p]! (cmpM st p q).2[q]! = 0)
+    (hok : combOk (cmpM st p q).2[p]! (cmpM st p q).2[q]! = true) :
+    ((cmpM st p q).2[p]!).lo ≤ ((cmpM st p q).2[q]!).lo := by
+  have hseq := cmpM_SEq st p q
+  have h0 : prefixCmp st[p]! st[q]! = 0 := by rw [← prefixCmp_congr (hseq.2 p) (hseq.2 q)]; exact hpc
+  rw [cmpM_eq] at hc hok ⊢
+  simp only [h0, bne_self_eq_false, Bool.false_eq_true, if_false] at hc hok ⊢
+  cases hcm : (combineM st p q).1
+  · rw [combineM_false st p q hcm, combineM_false st p q hcm, ← combineM_fst, hcm] at hok
+    cases hok
+  · simp only [hcm, if_true] at hc
+    omega
+
+theorem coalesceTail_spec {st : Store} {ids : List Nat} {i p q : Nat} {st' : Store} {ids' : List Nat} {i' : Nat}
+    (hinv : Inv st ids) (hi : i < ids.length) (hp : p ∈ ids) (hq : q ∈ ids) (hpq : p ≠ q)
+    (has : (st[p]!).single = false) (hbs : (st[q]!).single = false)
+    (hord : prefixCmp st[p]! st[q]! = 0 → combOk st[p]! st[q]! = true → (st[p]!).lo ≤ (st[q]!).lo)
+    (h : coalesceTail st ids i p q = .cont st' ids' i') :
+    Inv st' ids' ∧ (den st' ids').Perm (den st ids) ∧ (i' = 0 ∨ i' < ids'.length) := by
+  unfold coalesceTail at h
+  split at h
+  · simp only [StepRes.cont.injEq] at h
+    obtain ⟨rfl, rfl, rfl⟩ := h
+    exact ⟨hinv, Perm.refl _, Or.inr (by omega)⟩
+  · rename_i hc
+    have hseq := combineM_SEq st p q
+    split at h
+    · simp only [StepRes.cont.injEq] at h
+      obtain ⟨rfl, rfl, rfl⟩ := h
+      exact ⟨Inv_SEq hseq hinv, by rw [den_SEq hseq], Or.inr (by omega)⟩
+    · rename_i hok
+      have hok : (combineM st p q).1 = true := by simpa using hok
+      have hc : prefixCmp st[p]! st[q]! = 0 ∧ (st[q]!).lo < (st[p]!).hi := by simpa using hc
+      obtain ⟨hpc, hov⟩ := hc
+      simp only [StepRes.cont.injEq] at h
+      obtain ⟨rfl, rfl, rfl⟩ := h
+      have hw := combineM_true st p q hok hpq (hinv.2.1 p hp) (hinv.2.1 q hq)
+      have hle := hord hpc (by rw [← combineM_fst]; exact hok)
+      obtain ⟨hpfx, _⟩ := prefixCmp_zero hpc
+      obtain ⟨ap1, al1, ah1, as1, _⟩ := hseq.2 p
+      obtain ⟨bp1, bl1, bh1, bs1, _⟩ := hseq.2 q
+      obtain ⟨h1, h2⟩ := splitStep_spec i (Inv_SEq hseq hinv) hp hq hpq (by rw [as1]; exact has) (by rw [bs1]; exact hbs)
+        (by rw [ap1, bp1]; exact hpfx) hw (by rw [al1, bl1]; exact hle) (by rw [bl1, ah1]; exact hov)
+      exact ⟨h1, by rw [← den_SEq hseq]; exact h2, by omega⟩
+
+theorem coalesceTail_ne {st : Store} {ids : List Nat} {i p q : Nat} :
+    coalesceTail st ids i p q ≠ .abort ∧ ∀ s l, coalesceTail st ids i p q ≠ .done s l := by
+  unfold coalesceTail
+  split
+  · simp
+  · split <;> simp
+
+theorem coalesceStep_done {st : Store} {ids : List Nat} {i : Nat} {st' : Store} {ids' : List Nat}
+    (h : coalesceStep st ids i = .done st' ids') : st' = st ∧ ids' = ids := by
+  unfold coalesceStep at h
+  split at h
+  · cases h; exact ⟨rfl, rfl⟩
+  · split at h
+    · cases h
+    · split at h
+      · cases h
+      · exact absurd h (coalesceTail_ne.2 _ _)
+
+/-- one iteration of `hostlist_coalesce` keeps the invariant and the multiset of names -/
+theorem coalesceStep_cont {st : Store} {ids : List Nat} {i : Nat} {st' : Store} {ids' : List Nat} {i' : Nat}
+    (hinv : Inv st ids) (hi : i = 0 ∨ i < ids.length) (h : coalesceStep st ids i = .cont st' ids' i') :
+    Inv st' ids' ∧ (den st' ids').Perm (den st ids) ∧ (i' = 0 ∨ i' < ids'.length) := by
+  unfold coalesceStep at h
+  split at h
+  · cases h
+  · rename_i h0
+    have h0 : i ≠ 0 := by simpa using h0
+    have hi : i < ids.length := by omega
+    obtain ⟨hp, hq, hpq, _⟩ := adj_ids hinv.1 h0 hi
+    generalize ids[i-1]! = p at *
+    generalize ids[i]! = q at *
+    split at h
+    · simp only [StepRes.cont.injEq] at h
+      obtain ⟨rfl, rfl, rfl⟩ := h
+      exact ⟨hinv, Perm.refl _, Or.inr (by omega)⟩
+    · rename_i hsing
+      simp only [Bool.or_eq_true, not_or, Bool.not_eq_true] at hsing
+      split at h
+      · cases h
+      · rename_i hc
+        have hseq := cmpM_SEq st p q
+        obtain ⟨h1, h2, h3⟩ := coalesceTail_spec (Inv_SEq hseq hinv) hi hp hq hpq
+          (by rw [(hseq.2 p).2.2.2.1]; exact hsing.1) (by rw [(hseq.2 q).2.2.2.1]; exact hsing.2)
+          (fun hpc hok => cmpM_le hc hpc hok) h
+        exact ⟨h1, by rw [← den_SEq hseq]; exact h2, h3⟩
+
+theorem coalesceLoopF_spec : ∀ (f : Nat) (st : Store) (ids : List Nat) (i : Nat) (st' : Store) (ids' : List Nat),
+    Inv st ids → (i = 0 ∨ i < ids.length) → coalesceLoopF f st ids i = .ok (ids', st') →
+    Inv st' ids' ∧ (den st' ids').Perm (den st ids)
+  | 0, _, _, _, _, _, _, _, h => by simp [coalesceLoopF] at h
+  | f + 1, st, ids, i, st', ids', hinv, hi, h => by
+    unfold coalesceLoopF at h
+    split at h
+    · rename_i st1 ids1 hs
+      obtain ⟨rfl, rfl⟩ := coalesceStep_done hs
+      simp only [RF.ok.injEq, Prod.mk.injEq] at h
+      obtain ⟨rfl, rfl⟩ := h
+      exact ⟨hinv, Perm.refl _⟩
+    · cases h
+    · rename_i st1 ids1 i1 hs
+      obtain ⟨h1, h2, h3⟩ := coalesceStep_cont hinv hi hs
+      obtain ⟨h4, h5⟩ := coalesceLoopF_spec f _ _ _ _ _ h1 h3 h
+      exact ⟨h4, h5.trans h2⟩
+
+theorem coalesceF_spec {st : Store} {ids : List Nat} {st' : Store} {ids' : List Nat}
+    (hinv : Inv st ids) (h : coalesceF st ids = .ok (ids', st')) :
+    Inv st' ids' ∧ (den st' ids').Perm (den st ids) := by
+  unfold coalesceF at h
+  exact coalesceLoopF_spec _ _ _ _ _ _ hinv (by omega) h
+
+/-! ## `hostlist_sort` -/
+
+theorem map_range_getElem! (l : List HostRange) : (range l.length).map (fun i => l.toArray[i]!) = l := by
+  apply ext_getElem
+  · simp
+  · intro i h1 h2
+    simp only [length_map, length_range] at h1
+    simp [h1]
+
+theorem den_init (hl : Hostlist) : den hl.toArray (range hl.length) = expand hl := by
+  unfold den expand
+  conv => rhs; rw [← map_range_getElem! hl]
+  rw [flatMap_map]
+
+theorem Inv_init (hl : Hostlist) (hwf : HWFS hl) : Inv hl.toArray (range hl.length) := by
+  refine ⟨nodup_range, fun i hi => by simpa using hi, fun i hi => ?_⟩
+  have hi : i < hl.length := by simpa using hi
+  apply hwf
+  have : hl.toArray[i]! = hl[i] := by simp [hi]
+  rw [this]
+  exact getElem_mem _
+
+theorem finish_spec {st : Store} {ids : List Nat} (hinv : Inv st ids) :
+    expand (ids.map fun i => st[i]!) = den st ids ∧ HWFS (ids.map fun i => st[i]!) := by
+  constructor
+  · unfold expand den
+    rw [flatMap_map]
+  · intro t ht
+    obtain ⟨i, hi, rfl⟩ := mem_map.mp ht
+    exact hinv.2.2 i hi
+
+/-- `hostlist_sort` (merge sort by `hostrange_cmp`, `hostlist_coalesce`, `hostlist_collapse`) never adds, drops or
+    renames a node, and keeps the list well formed -/
+theorem sortHLF_spec (hl hl' : Hostlist) (hwf : HWFS hl) (h : sortHLF hl = .ok hl') :
+    (expand hl').Perm (expand hl) ∧ HWFS hl' := by
+  unfold sortHLF at h
+  split at h
+  · cases h; exact ⟨Perm.refl _, hwf⟩
+  · unfold afterMsortF at h
+    split at h
+    · rename_i ids1 st1 hm
+      obtain ⟨p1, s1⟩ := msortF_perm _ _ _ _ _ hm
+      have inv1 : Inv st1 ids1 := Inv_perm p1.symm (Inv_SEq s1 (Inv_init hl hwf))
+      have d1 : (den st1 ids1).Perm (expand hl) := by
+        rw [← den_init hl, ← den_SEq s1]; exact den_perm _ p1
+      unfold afterCoalesceF at h
+      split at h
+      · rename_i ids2 st2 hco
+        obtain ⟨inv2, d2⟩ := coalesceF_spec inv1 hco
+        unfold finishF at h
+        split at h
+        · rename_i ids3 st3 hcl
+          obtain ⟨inv3, d3⟩ := collapseF_spec inv2 hcl
+          simp only [SortResF.ok.injEq] at h
+          subst h
+          obtain ⟨e, w⟩ := finish_spec inv3
+          exact ⟨by rw [e]; exact (d3.trans d2).trans d1, w⟩
+        · cases h
+        · cases h
+      · cases h
+      · cases h
+    · cases h
+    · cases h
+
+theorem sortHLF_perm (hl hl' : Hostlist) (hwf : HWFS hl) (h : sortHLF hl = .ok hl') : (expand hl').Perm (expand hl) :=
+  (sortHLF_spec hl hl' hwf h).1
+
+theorem sortHLF_wfs (hl hl' : Hostlist) (hwf : HWFS hl) (h : sortHLF hl = .ok hl') : HWFS hl' :=
+  (sortHLF_spec hl hl' hwf h).2
+
+
+/-! ## the hypotheses are satisfiable, and `HWFS` cannot be weakened to `HWF` -/
+
+/-- premises of `sortHLF_perm` on a non-trivial list (`b2,a[1-3],a[2-5],b1`): two prefixes, an overlap that is split,
+    two singletons that are collapsed -/
+example :
+    HWFS [⟨['b'], 2, 2, 1, false⟩, ⟨['a'], 1, 3, 1, false⟩, ⟨['a'], 2, 5, 1, false⟩, ⟨['b'], 1, 1, 1, false⟩] ∧
+    sortHLF [⟨['b'], 2, 2, 1, false⟩, ⟨['a'], 1, 3, 1, false⟩, ⟨['a'], 2, 5, 1, false⟩, ⟨['b'], 1, 1, 1, false⟩] =
+      .ok [⟨['a'], 1, 2, 1, false⟩, ⟨['a'], 2, 3, 1, false⟩, ⟨['a'], 3, 5, 1, false⟩, ⟨['b'], 1, 2, 1, false⟩] := by
+  unfold HWFS; decide +kernel
+
+/-- with single names whose unused `lo`/`hi` fields are not zero (allowed by `HWF`, never built by the library, excluded
+    by `HWFS`) `hostlist_collapse` would merge two copies of the same name into one: the duplicate is lost -/
+theorem sortHLF_HWF_counterexample :
+    HWF [⟨['x'], 0, 0, 0, true⟩, ⟨['x'], 1, 1, 0, true⟩] ∧
+    sortHLF [⟨['x'], 0, 0, 0, true⟩, ⟨['x'], 1, 1, 0, true⟩] = .ok [⟨['x'], 0, 1, 0, true⟩] ∧
+    expand [⟨['x'], 0, 0, 0, true⟩, ⟨['x'], 1, 1, 0, true⟩] = [['x'], ['x']] ∧
+    expand [⟨['x'], 0, 1, 0, true⟩] = [['x']] := by
+  unfold HWF; decide +kernel
+
 end Pm
+
